@@ -4,6 +4,7 @@ import runtop_common
 
 PID = "C21"
 MODEL_TARGETS = ["model/RunTopCases.vo"]
+HARNESS_BINS = ["runtop"]
 RULE = ("current data of real histories re-enveloped with every version of a grid around the minimal version "
         "(major/minor/patch in {0,1,60,61,62,2^32}, pre-release and build variants), alone and combined with "
         "mutations that break a neighbouring stage; distinct = different (mutation, version string, result code)")
